@@ -1,6 +1,7 @@
 package main
 
 import (
+	"strings"
 	"fmt"
 	"go/token"
 	"go/types"
@@ -144,6 +145,9 @@ func (s *State) enabled(u *Thread) bool {
 	case *ssa.Call:
 		if f := in.Call.StaticCallee(); f != nil {
 			fi := s.eng.info(f)
+			if fi.visible && strings.HasSuffix(fi.name, ".vDrain") {
+				return !s.drainBlocked(u)
+			}
 			if fi.visible {
 				if chk := s.eng.enabledChecks[fi.name]; chk != nil {
 					_, args := s.callArgs(fr, &in.Call)
@@ -158,6 +162,22 @@ func (s *State) enabled(u *Thread) bool {
 // isVisible: is the pending instruction of the current thread a scheduling point?
 // yield reports points where the quick tier also pre-empts.
 func (s *State) isVisible(fr *Frame, instr ssa.Instruction) (visible, yield bool) {
+	if s.opts.GlobalRace {
+		// opt-in: stores to (and loads from) package-level variables are scheduling points, so that
+		// unsynchronised shared scratch state shows up as wrong output under some interleaving
+		switch in := instr.(type) {
+		case *ssa.Store:
+			if p, ok := s.operand(fr, in.Addr).(Ptr); ok && s.eng.isGlobalObj(s, p.ID) {
+				return true, false
+			}
+		case *ssa.UnOp:
+			if in.Op == token.MUL {
+				if p, ok := s.operand(fr, in.X).(Ptr); ok && s.eng.isGlobalObj(s, p.ID) {
+					return true, false
+				}
+			}
+		}
+	}
 	switch in := instr.(type) {
 	case *ssa.Send, *ssa.Select:
 		return true, false
